@@ -35,6 +35,8 @@ def jobs(tier):
     for g in ("I1024", "I2048", "I3072"):
         for n in ([0, 1, 9] if tier == "quick" else [0, 1, 2, 9, 64, 65]):
             js.append(("job_arb_int", dict(_name="arbitrary_element %s seedlen=%d" % (g, n), gname=g, n=n)))
+    for n in ([0, 1, 9] if tier == "quick" else [0, 1, 2, 9, 64, 65]):
+        js.append(("job_arb_ed", dict(_name="arbitrary_element Ed25519 seedlen=%d" % n, n=n, incs=3 if tier == "quick" else 6)))
     js.append(("job_constants", dict(_name="released M/N/S constants (ground)")))
     return js
 
@@ -132,6 +134,88 @@ def job_arb_int(J, gname, n):
     Flags.pow_stub = None
 
 
+def job_arb_ed(J, n, incs):
+    """the real try-and-increment loop over abstract curve points (kernel contracts K1-K5), HKDF/xrecover/isoncurve stubs"""
+    from symx.edabs import EdAbs, AbsPt
+    E = loader.MODS["ed25519_basic"]
+    Q, L = E.Q, E.L
+    XR = z3.Function("XRECOVER", z3.IntSort(), z3.IntSort())
+    ONC = z3.Function("OnCurve", z3.IntSort(), z3.IntSort(), z3.BoolSort())
+    J.bounds.update(seed_len=n, max_increments=incs)
+
+    def h(ctx):
+        A = EdAbs(E)
+        A.install(ctx)
+        saved = (E.xrecover, E.isoncurve, E.xform_affine_to_extended)
+        tried, pts = [], []
+
+        def xrec(y):
+            if len(tried) > incs:
+                raise PathAbort("more than %d increments" % incs)
+            r = XR(T(y))
+            ctx.side += [r >= 0, r < Q]
+            tried.append(T(y))
+            return SymInt(r)
+
+        def onc(P):
+            return SymBool(ONC(T(P[0]), T(P[1])))
+
+        def aff(pt):
+            if isinstance(pt[0], SymInt) or isinstance(pt[1], SymInt):
+                k, t = ctx.fresh("ptk"), ctx.fresh("ptt")
+                a = AbsPt(k, t)
+                pts.append((T(pt[0]), T(pt[1]), a))
+                return a
+            return saved[2](pt)
+        E.xrecover, E.isoncurve, E.xform_affine_to_extended = xrec, onc, aff
+        try:
+            seed = SymBytes.fresh("seed", n)
+            ctx.data["w"] = dict(seed=seed, tried=tried, pts=pts)
+            return A.saved["arbitrary_element"](seed)      # the real loop; kernels are the contracts
+        finally:
+            E.xrecover, E.isoncurve, E.xform_affine_to_extended = saved
+            A.uninstall()
+    for r in J.explore(h, max_paths=200):
+        w = r.ctx.data["w"]
+        J.reach(r)
+        cex = lambda m, w=w: dict(seed=w["seed"].model_bytes(m))
+        if r.kind != "ret":
+            J.claim(r, "arbitrary_element does not raise (%s)" % type(r.value).__name__, False, cex=cex, oracle="arb_ed")
+            continue
+        calls = r.ctx.table("hkdf")
+        ok = len(calls) == 1
+        J.claim(r, "exactly one HKDF application", ok, cex=cex, oracle="arb_ed")
+        if not ok:
+            continue
+        c = calls[0]
+        J.claim(r, "HKDF-SHA256, 48 bytes, salt '', info 'SPAKE2 arbitrary element', applied to the unchanged seed",
+                c["algorithm"] == "SHA256" and c["length"] == 48 and c["salt"] in (b"", None) and c["info"] == b"SPAKE2 arbitrary element"
+                and bool(z3.is_true(z3.simplify(SymBytes.of(c["data"]).eq_term(w["seed"])))), cex=cex, oracle="arb_ed")
+        y0 = SymBytes.of(c["out"]).value() % Q
+        tried, pts = w["tried"], w["pts"]
+        J.claim(r, "candidates are y, y+1, ... mod Q in order, y = big-endian(HKDF output) mod Q [%d tried]" % len(tried),
+                z3.And([tried[j] == (y0 + j) % Q for j in range(len(tried))]), cex=cex, oracle="arb_ed")
+        el = r.value
+        good = isinstance(el, E.Element) and isinstance(el.XYTZ, AbsPt) and len(pts) >= 1
+        J.claim(r, "result is an Element built from the last candidate point", good, cex=cex, oracle="arb_ed")
+        if not good:
+            continue
+        px, py, pa = pts[-1]
+        J.claim(r, "the point is (xrecover(y_j), y_j) for the last candidate, on the curve",
+                z3.And(px == XR(tried[-1]), py == tried[-1], ONC(px, py)), cex=cex, oracle="arb_ed")
+        J.claim(r, "result = [8]P: torsion component killed, not the identity, order L",
+                z3.And((el.XYTZ.k - 8 * pa.k) % L == 0, el.XYTZ.t % 8 == 0, el.XYTZ.k % L != 0), cex=cex, oracle="arb_ed")
+        # every earlier candidate was skipped for a legitimate reason: off the curve, or a small-order point
+        conds = []
+        k_used = {id(p[2]) for p in pts}
+        for j in range(len(tried) - 1):
+            on = ONC(XR(tried[j]), tried[j])
+            small = [z3.And(p[1] == tried[j], p[2].k % L == 0) for p in pts[:-1]]
+            conds.append(z3.Or(z3.Not(on), z3.Or(small) if small else z3.BoolVal(False)))
+        J.claim(r, "earlier candidates were skipped only because off-curve or of small order", z3.And(conds) if conds else True,
+                cex=cex, oracle="arb_ed")
+
+
 def job_constants(J):
     v, detail = oracle_constants()
     J.ground("M, N, S of the four shipped parameter sets equal the released constants", not v, detail,
@@ -200,4 +284,20 @@ def oracle_constants():
     return (False, "ok")
 
 
-ORACLES = dict(p2s=oracle_p2s, arb_int=oracle_arb_int, constants=oracle_constants)
+def oracle_arb_ed(seed):
+    from spake2 import ed25519_basic as E
+    from checks import refimpl as R
+    for s_ in [seed, b"", b"M", b"N", b"symmetric", b"A", b"B", seed + b"\x00", bytes(65), b"\xff" * 7]:
+        try:
+            e = E.arbitrary_element(s_)
+        except Exception as ex:
+            return (True, "arbitrary_element(%r) raised %r" % (s_, ex))
+        want = R.ed_arbitrary_element(s_)
+        if e.to_bytes() != R.ed_enc(want) or not isinstance(e, E.Element):
+            return (True, "Ed25519 arbitrary_element(%r) differs from the published construction" % (s_,))
+        if want == R.ED_ZERO or not R.ed_in_subgroup(want):
+            return (True, "Ed25519 arbitrary_element(%r) is not a non-identity subgroup member" % (s_,))
+    return (False, "ok")
+
+
+ORACLES = dict(p2s=oracle_p2s, arb_int=oracle_arb_int, constants=oracle_constants, arb_ed=oracle_arb_ed)
